@@ -12,17 +12,22 @@ import (
 	"testing"
 	"time"
 
+	"google.golang.org/protobuf/types/known/timestamppb"
 	"pgregory.net/rapid"
 
 	"github.com/apache/skywalking-banyandb/api/common"
 	commonv1 "github.com/apache/skywalking-banyandb/api/proto/banyandb/common/v1"
 	databasev1 "github.com/apache/skywalking-banyandb/api/proto/banyandb/database/v1"
+	measurev1 "github.com/apache/skywalking-banyandb/api/proto/banyandb/measure/v1"
+	modelv1 "github.com/apache/skywalking-banyandb/api/proto/banyandb/model/v1"
 	"github.com/apache/skywalking-banyandb/banyand/internal/storage"
 	"github.com/apache/skywalking-banyandb/banyand/internal/wqueue"
 	metadataschema "github.com/apache/skywalking-banyandb/banyand/metadata/schema"
 	"github.com/apache/skywalking-banyandb/banyand/protector"
 	"github.com/apache/skywalking-banyandb/banyand/queue"
+	"github.com/apache/skywalking-banyandb/pkg/bus"
 	"github.com/apache/skywalking-banyandb/pkg/logger"
+	vmeasure "github.com/apache/skywalking-banyandb/pkg/query/vectorized/measure"
 	resourceSchema "github.com/apache/skywalking-banyandb/pkg/schema"
 	"github.com/apache/skywalking-banyandb/pkg/timestamp"
 	"github.com/apache/skywalking-banyandb/verifkit"
@@ -353,5 +358,262 @@ func TestVerifC17MeasureCluster(t *testing.T) {
 			return nil
 		},
 		MinLabelFrac: map[string]float64{">= 2 segments on the data node": 0.4},
+	})
+}
+
+// ---------------------------------------------------------------------------------------------
+// The same pipe, fed through the coordinator's real write callback (writeQueueCallback.Rev): the
+// callback decides which (shard, segment) table of the write queue a data point of a batch goes to.
+// ---------------------------------------------------------------------------------------------
+
+type clRevPoint struct {
+	Svc int   `json:"svc"`
+	Off int64 `json:"off"` // millisecond offset from the midnight of the history
+}
+
+type clRevCase struct {
+	Batches [][]clRevPoint `json:"batches"`
+	Gaps    []int          `json:"gaps"`
+}
+
+func (s *clTransport) Publish(_ context.Context, _ bus.Topic, _ ...bus.Message) (bus.Future, error) {
+	return clNopFuture{}, nil // series-index documents: not part of this check
+}
+
+type clNopFuture struct{}
+
+func (clNopFuture) Get() (bus.Message, error)      { return bus.NewMessage(1, nil), nil }
+func (clNopFuture) GetAll() ([]bus.Message, error) { return nil, nil }
+
+type clSegContent struct {
+	start, end time.Time
+	rows       uint64
+}
+
+// clSegments lists the data node's segments with their row counts; a part whose time bounds leave its segment is an error.
+func clSegments(db storage.TSDB[*tsTable, option]) ([]clSegContent, error) {
+	segs, err := db.SelectSegments(timestamp.NewInclusiveTimeRange(time.Unix(1, 0), time.Unix(1<<34, 0)), true)
+	if err != nil {
+		return nil, err
+	}
+	var out []clSegContent
+	var ferr error
+	for _, seg := range segs {
+		tr := seg.GetTimeRange()
+		sc := clSegContent{start: tr.Start, end: tr.End}
+		tt, _ := seg.Tables()
+		for _, tbl := range tt {
+			snp := tbl.currentSnapshot()
+			if snp == nil {
+				continue
+			}
+			for _, pw := range snp.parts {
+				pm := pw.p.partMetadata
+				if pm.TotalCount == 0 {
+					continue
+				}
+				if (!tr.Contains(pm.MinTimestamp) || !tr.Contains(pm.MaxTimestamp)) && ferr == nil {
+					ferr = fmt.Errorf("the data node stores a part with rows from %s to %s in segment %s which does not contain them",
+						time.Unix(0, pm.MinTimestamp).UTC(), time.Unix(0, pm.MaxTimestamp).UTC(), tr)
+				}
+				sc.rows += pm.TotalCount
+			}
+			snp.decRef()
+		}
+		out = append(out, sc)
+		seg.DecRef()
+	}
+	return out, ferr
+}
+
+func runClusterRev(x *verifkit.Ctx, c clRevCase) (segments int, boundary bool, err error) {
+	initLog()
+	dir, derr := os.MkdirTemp("", "verif-cluster-rev-")
+	if derr != nil {
+		return 0, false, derr
+	}
+	defer os.RemoveAll(dir)
+	interval := storage.IntervalRule{Unit: storage.DAY, Num: 1}
+	dataCtx := common.SetPosition(context.WithValue(context.Background(), logger.ContextKey, logger.GetLogger("verif-data")),
+		func(p common.Position) common.Position { p.Database = "verif"; return p })
+	if merr := os.MkdirAll(filepath.Join(dir, "data"), storage.DirPerm); merr != nil {
+		return 0, false, merr
+	}
+	db, oerr := storage.OpenTSDB[*tsTable, option](dataCtx, storage.TSDBOpts[*tsTable, option]{
+		ShardNum: 1, Location: filepath.Join(dir, "data"), TSTableCreator: newTSTable, SegmentInterval: interval,
+		TTL: storage.IntervalRule{Unit: storage.DAY, Num: 3650}, Option: option{protector: protector.Nop{}, mergePolicy: newDefaultMergePolicyForTesting()},
+	}, nil, meGroup)
+	if oerr != nil {
+		return 0, false, oerr
+	}
+	defer db.Close()
+	receiver := setUpChunkedSyncCallback(logger.GetLogger("verif-data"), &schemaRepo{
+		Repository: &clRevDataRepo{clRepository{group: &clGroupHolder{tsdb: db}}}, l: logger.GetLogger("verif-data")})
+	transport := &clTransport{receiver: receiver}
+	liaisonCtx := common.SetPosition(context.WithValue(context.Background(), logger.ContextKey, logger.GetLogger("verif-liaison")),
+		func(p common.Position) common.Position { p.Database = "verif"; return p })
+	wq, werr := wqueue.Open[*tsTable, option](liaisonCtx, wqueue.Opts[*tsTable, option]{
+		Group: meGroup, ShardNum: 1, SegmentInterval: interval, Location: filepath.Join(dir, "liaison"),
+		Option:          option{protector: protector.Nop{}, tire2Client: transport, flushTimeout: 300 * time.Millisecond, syncInterval: 100 * time.Millisecond},
+		SubQueueCreator: newWriteQueue, GetNodes: func(common.ShardID) []string { return []string{"data-0"} },
+	}, meGroup)
+	if werr != nil {
+		return 0, false, werr
+	}
+	defer wq.Close()
+	l := logger.GetLogger("verif-liaison")
+	rctx, cancel := context.WithCancel(context.Background())
+	defer cancel()
+	repo := &schemaRepo{l: l, path: dir, ctx: rctx, cancel: cancel, closingGroups: map[string]struct{}{}}
+	m, merr := openMeasure(measureSpec{schema: c06Schema()}, l, nil, protector.Nop{}, repo, nil, vmeasure.VectorizedConfig{})
+	if merr != nil {
+		return 0, false, merr
+	}
+	m.OnIndexUpdate(nil)
+	repo.Repository = &meFakeRepo{m: m, db: wq}
+	cb := setUpWriteQueueCallback(l, repo, 100, transport)
+
+	midnight := time.Unix(0, tsOf(clMidnight))
+	expect := map[int64]int{} // segment start (unix nano) -> rows
+	n := uint64(0)
+	write := func(points []clRevPoint) {
+		var events []any
+		for i, p := range points {
+			n++
+			ts := midnight.Add(time.Duration(p.Off) * time.Millisecond)
+			svc := fmt.Sprintf("svc-%d", p.Svc)
+			req := &measurev1.WriteRequest{
+				DataPoint: &measurev1.DataPointValue{
+					Timestamp:   timestamppb.New(ts),
+					TagFamilies: []*modelv1.TagFamilyForWrite{{Tags: []*modelv1.TagValue{{Value: &modelv1.TagValue_Str{Str: &modelv1.Str{Value: svc}}}}}},
+					Fields:      []*modelv1.FieldValue{{Value: &modelv1.FieldValue_Int{Int: &modelv1.Int{Value: int64(n)}}}}, Version: 1,
+				},
+				MessageId: n,
+			}
+			if i == 0 {
+				req.Metadata = &commonv1.Metadata{Name: c06Name, Group: meGroup}
+			}
+			events = append(events, &measurev1.InternalWriteRequest{ShardId: 0, EntityValues: []*modelv1.TagValue{{Value: &modelv1.TagValue_Str{Str: &modelv1.Str{Value: svc}}}}, Request: req})
+			expect[wq.GetTimeRange(ts).Start.UnixNano()]++
+			if p.Off == 0 || p.Off == -86_400_000 || p.Off == 86_400_000 {
+				boundary = true
+			}
+		}
+		cb.Rev(context.Background(), bus.NewMessage(bus.MessageID(n), events))
+	}
+	delivered := func(timeout time.Duration) error {
+		deadline := time.Now().Add(timeout)
+		for {
+			segs, cerr := clSegments(db)
+			if cerr == nil {
+				got := map[int64]int{}
+				for _, s := range segs {
+					if s.rows > 0 {
+						got[s.start.UnixNano()] = int(s.rows)
+					}
+				}
+				if fmt.Sprint(got) != fmt.Sprint(expect) {
+					cerr = fmt.Errorf("rows per segment on the data node %v, a standalone server holds %v (keys: segment start in unix nanoseconds)", got, expect)
+				}
+			}
+			if cerr == nil {
+				return nil
+			}
+			if time.Now().After(deadline) {
+				transport.mu.Lock()
+				errs, shipped := append([]error(nil), transport.errs...), transport.shipped
+				transport.mu.Unlock()
+				return fmt.Errorf("%v (parts shipped: %d, transport errors: %v)", cerr, shipped, errs)
+			}
+			time.Sleep(50 * time.Millisecond)
+		}
+	}
+	write([]clRevPoint{{Svc: 9, Off: -600_000}})
+	if derr := delivered(60 * time.Second); derr != nil {
+		return 0, boundary, fmt.Errorf("the first batch was not delivered within 60 s: %v", derr)
+	}
+	time.Sleep(700 * time.Millisecond)
+	for i, b := range c.Batches {
+		write(b)
+		if i < len(c.Gaps) && c.Gaps[i] > 0 {
+			time.Sleep(time.Duration(c.Gaps[i]) * time.Millisecond)
+		}
+	}
+	if derr := delivered(60 * time.Second); derr != nil {
+		return 0, boundary, fmt.Errorf("60 s after the last write the data node does not hold what a standalone server holds: %v", derr)
+	}
+	time.Sleep(400 * time.Millisecond)
+	if derr := delivered(time.Second); derr != nil {
+		return 0, boundary, fmt.Errorf("after the delivery settled the data node's content changed: %v", derr)
+	}
+	return len(expect), boundary, nil
+}
+
+// clRevDataRepo answers the data node's group lookups for the group the engine kit uses.
+type clRevDataRepo struct{ clRepository }
+
+func (f *clRevDataRepo) LoadGroup(name string) (resourceSchema.Group, bool) {
+	if name != meGroup {
+		return nil, false
+	}
+	return f.group, true
+}
+
+func TestVerifC17MeasureClusterRev(t *testing.T) {
+	verifkit.Run(t, verifkit.Spec[clRevCase]{
+		Property: "C17", Unit: "measure_cluster_rev", CrashReplay: true,
+		Rule: "as measure_cluster, but the batches enter through the coordinator's real write callback (writeQueueCallback.Rev), which assigns every data point of a batch to " +
+			"the (shard, segment) table of the write queue: 1..4 batches of 1..8 data points with unique (series, timestamp), timestamps exactly on a day boundary, 1 ms before " +
+			"it, within 3 s around it or up to a day away, in generated order inside a batch; oracle: within 60 s the data node holds, per segment, exactly as many rows as " +
+			"the standalone attribution (segment containing the timestamp) gives, no part's time bounds leave its segment, and the content stays that way; non-trivial = a " +
+			"data point exactly on a segment boundary",
+		Gen: func(t *rapid.T, _ *verifkit.KnownSet) clRevCase {
+			var c clRevCase
+			used := map[[2]int64]bool{}
+			for b := rapid.IntRange(1, 4).Draw(t, "batches"); b > 0; b-- {
+				var pts []clRevPoint
+				for i := rapid.IntRange(1, 8).Draw(t, "points"); i > 0; i-- {
+					var off int64
+					switch rapid.IntRange(0, 5).Draw(t, "where") {
+					case 0:
+						off = 0
+					case 1:
+						off = rapid.SampledFrom([]int64{-1, -60_000, -86_400_000, 86_400_000, 86_399_999, 1}).Draw(t, "edge")
+					case 2, 3:
+						off = int64(rapid.IntRange(-3000, 3000).Draw(t, "near"))
+					default:
+						off = int64(rapid.IntRange(-86_400_000, 86_400_000).Draw(t, "anywhere"))
+					}
+					p := clRevPoint{Svc: rapid.IntRange(0, 3).Draw(t, "svc"), Off: off}
+					if used[[2]int64{int64(p.Svc), p.Off}] {
+						continue
+					}
+					used[[2]int64{int64(p.Svc), p.Off}] = true
+					pts = append(pts, p)
+				}
+				if len(pts) == 0 {
+					continue
+				}
+				c.Batches = append(c.Batches, pts)
+				c.Gaps = append(c.Gaps, rapid.SampledFrom([]int{0, 0, 100, 500}).Draw(t, "gap"))
+			}
+			return c
+		},
+		Check: func(x *verifkit.Ctx, c clRevCase) error {
+			if len(c.Batches) == 0 {
+				return nil
+			}
+			segments, boundary, err := runClusterRev(x, c)
+			if err != nil {
+				return err
+			}
+			x.LabelIf(segments >= 2, ">= 2 segments on the data node")
+			x.LabelIf(boundary, "data point exactly on a segment boundary")
+			if boundary {
+				x.NonTrivial()
+			}
+			return nil
+		},
+		MinLabelFrac: map[string]float64{"data point exactly on a segment boundary": 0.3},
 	})
 }
